@@ -124,6 +124,28 @@ pub proof fn lemma_tdiv_sign(g: int, d: int, p: int)
     }
 }
 
+
+/// truncated division / remainder in terms of magnitudes (positive divisor)
+pub proof fn lemma_tdiv_abs(a: int, b: int)
+    requires b > 0
+    ensures tdiv(a, b) == isgn(a) * (iabs(a) / b) || (a == 0 && tdiv(a, b) == 0),
+            iabs(trem(a, b)) == iabs(a) % b,
+            a >= 0 ==> tdiv(a, b) == a / b,
+            a < 0 ==> tdiv(a, b) == -((-a) / b)
+{
+    let n = iabs(a);
+    lemma_fundamental_div_mod(n, b);
+    lemma_mod_bound(n, b);
+    if a > 0 { assert(1 * (n / b) == n / b); }
+    else if a < 0 {
+        assert(-1 * (n / b) == -(n / b));
+        assert(b * (-(n / b)) == -(b * (n / b))) by (nonlinear_arith);
+    } else {
+        assert(0int / b == 0) by { lemma_div_basics(b); }
+        assert(0 * (0int / b) == 0);
+    }
+}
+
 // ------------------------------------------------------------------ decimal digit count
 /// least d >= 1 with n < 10^d  (n >= 0)
 pub open spec fn ndigits(n: int) -> int
